@@ -41,6 +41,8 @@ func init() {
 			{Name: "models", N: constN(6000, 300000), Gen: genModelCase, Eval: c01EvalModel},
 			{Name: "regex-bodies", Stream: c01StreamRegex, Eval: c01Eval},
 			{Name: "schema-bodies", Stream: c01StreamSchemaBodies, Eval: c01Eval},
+			{Name: "references", N: constN(6000, 150000), Gen: c09GenReferences, Eval: c01Eval},
+			{Name: "paths", Stream: c01StreamPaths, Eval: c01Eval},
 		},
 		Floors: map[string]int64{"accepted": 500, "rejected": 5000},
 	})
@@ -590,5 +592,34 @@ func c01StreamSchemaBodies(t *fw.T, shard, nshards int, emit func(*fw.Case)) {
 			doc = "JSIGHT 0.3\nTYPE @t\n[1]\nPOST /a/{id}\n  Path\n  {\"id\": " + s + "}\n  Request\n    Headers\n    {\"h\": " + s + "}\n    Body any\n  200 any\n"
 		}
 		emit(oneDocCase([]byte(doc), "", "schema body"))
+	})
+}
+
+
+var c01PathAtoms = []string{"a", ".", "/", "{x}", "{}", "%", " ", "..", "{x", "é"}
+
+// c01StreamPaths: every path of up to 4 (thorough 5) atoms as the path of an HTTP method, of a URL block and of a
+// JSON-RPC URL, with and without a Tags directive (the automatic tag is computed from the path).
+func c01StreamPaths(t *fw.T, shard, nshards int, emit func(*fw.Case)) {
+	n := 0
+	enumerate(c01PathAtoms, t.Pick(4, 5), func(s string) {
+		n++
+		if n%nshards != shard {
+			emit(nil)
+			return
+		}
+		p := quoteParam("/" + s)
+		var doc string
+		switch n % 4 {
+		case 0:
+			doc = "JSIGHT 0.3\nGET " + p + "\n  200 any\n"
+		case 1:
+			doc = "JSIGHT 0.3\nURL " + p + "\n  GET\n    200 any\n  POST\n    Request any\n    200 any\n"
+		case 2:
+			doc = "JSIGHT 0.3\nURL " + p + "\n  Protocol json-rpc-2.0\n  Method m\n    Params\n    {}\n"
+		default:
+			doc = "JSIGHT 0.3\nTAG @t\nURL " + p + "\n  Tags @t\n  GET\n    200 any\nGET " + p + "/more\n  200 any\n"
+		}
+		emit(oneDocCase([]byte(doc), "", "path"))
 	})
 }
